@@ -6,7 +6,8 @@
    every correspondence case). *)
 From Coq Require Import List ZArith QArith Bool.
 From DV Require Import Base.PyList Model.C05_Nsga2 Model.C05_Spec Model.C05_CrowdSpec
-     Proofs.C05_Spec Proofs.C05_Nsga2 Proofs.C05_QInst Proofs.C05_Crowding.
+     Proofs.C05_Spec Proofs.C05_Nsga2 Proofs.C05_QInst Proofs.C05_Crowding
+     Proofs.C05_CutFront Proofs.C05_Depth Proofs.C05_Extremes Proofs.C05_FloatOrd.
 Import ListNotations.
 Local Open Scope nat_scope.
 
@@ -78,6 +79,55 @@ Proof.
            lastf E (proj2 (Forall_forall _ _) (fun _ _ => I)) x dx y dy Ix Iy Sx Ny).
 Qed.
 Print Assumptions C05_nsga2_crowding_cut.
+
+(* the IEEE-float instance (the one compared bit for bit with CPython): same statement, provided
+   no distance of the cut front is NaN.  Uses the standard library's float specification axioms. *)
+Theorem C05_nsga2_crowding_cut_float : forall (pop : list (ind PrimFloat.float)) k fronts r,
+  wf_pop pop -> fronts_correct pop k fronts -> sel_nsga2 f_ops fronts k = Some r ->
+  forall lastf, lastf = last fronts [] ->
+  Forall (fun d => PrimFloat.is_nan d = false) (assign_crowding f_ops lastf) ->
+  forall x dx y dy,
+    In (x, dx) (combine lastf (assign_crowding f_ops lastf)) ->
+    In (y, dy) (combine lastf (assign_crowding f_ops lastf)) ->
+    In (uid x) (uids r) -> ~ In (uid y) (uids r) -> PrimFloat.ltb dx dy = false.
+Proof.
+  intros pop k fronts r W F S lastf E NN x dx y dy Ix Iy Sx Ny.
+  exact (crowding_cut f_ops pop k fronts r W F S not_nan fltb_asym fltb_ntrans lastf E NN x dx y dy Ix Iy Sx Ny).
+Qed.
+Print Assumptions C05_nsga2_crowding_cut_float.
+
+(* the cut front is exactly one depth class of the population (so "within the cut front" in the
+   theorems above means: among the individuals of that depth) *)
+Theorem C05_cut_front_is_depth_class : forall o (pop : list (ind (V o))) k fronts r,
+  wf_pop pop -> fronts_correct pop k fronts -> sel_nsga2 o fronts k = Some r -> 0 < k ->
+  exists m, forall y, In y pop -> (In (uid y) (uids (last fronts [])) <-> depth pop y = m).
+Proof. exact cut_front_depth. Qed.
+Print Assumptions C05_cut_front_is_depth_class.
+
+(* `depth` (peeling) is the dominance depth: dominators are strictly shallower, and an
+   individual of depth d+1 has a dominator of depth exactly d *)
+Theorem C05_depth_is_dominance_depth : forall (A : Type) (pop : list (ind A)), wf_pop pop ->
+  (forall x y, In x pop -> In y pop -> dom (wv y) (wv x) = true -> depth pop y < depth pop x) /\
+  (forall x d, In x pop -> depth pop x = S d ->
+     exists y, In y pop /\ dom (wv y) (wv x) = true /\ depth pop y = d).
+Proof. intros A pop. exact (depth_is_dominance_depth pop). Qed.
+Print Assumptions C05_depth_is_dominance_depth.
+
+Theorem C05_dom_spec : forall a b : list Z, dom a b = true <->
+  length a = length b /\ Forall (fun p => (snd p <= fst p)%Z) (zip a b) /\ Exists (fun p => (snd p < fst p)%Z) (zip a b).
+Proof. exact dom_spec. Qed.
+Print Assumptions C05_dom_spec.
+
+(* ties allowed: in every objective an individual with the smallest and one with the largest
+   value of the front gets an infinite distance *)
+Theorem C05_crowding_extremes_inf : forall (front : list (ind Q)) (i : nat),
+  front <> [] -> i < front_nobj front ->
+  (exists j, j < length front /\ (nth j (vcol i front) 0 == lmin (vcol i front))%Q /\
+             nth j (assign_crowding q_ops front) Inf = Inf) /\
+  (exists j, j < length front /\ (nth j (vcol i front) 0 == lmax (vcol i front))%Q /\
+             nth j (assign_crowding q_ops front) Inf = Inf).
+Proof. exact crowding_extremes_inf. Qed.
+Print Assumptions C05_crowding_extremes_inf.
 
 (* crowding distance = the formula: for a front whose values are pairwise distinct in every
    objective, individual j gets infinity if it is the smallest or largest in some objective, and
